@@ -56,6 +56,7 @@ type CallSpec struct { // "at call <callee>#k: requires e" / "hint e"
 	Bind    map[string]string // ghost name -> callee result name
 	Ghost   []GhostAssign     // ghost updates performed just before the call (same atomic step)
 	GhostAfter []GhostAssign  // ghost updates performed right after the call returns (same atomic step)
+	Optional bool // `at call? f#k:` the call may be absent (ghost / bind / hint clauses only: without them less is known, never more)
 }
 
 type GhostAssign struct {
@@ -167,7 +168,7 @@ func readDirectives(path string, prefixed bool) ([]string, []int, error) {
 var reSpecFunc = regexp.MustCompile(`^(?:pure|opaque)\s+func\s+(\w+)\s*\(([^)]*)\)\s*([^=]*?)\s*(?:=\s*(.*))?$`)
 var reFuncHdr = regexp.MustCompile(`^(func|extern)\s+(\S+?)(?:\s*\(([^)]*)\)\s*(?:\(([^)]*)\))?)?\s*$`)
 var reLoop = regexp.MustCompile(`^loop\s+(\d+)\s*:\s*(invariant|decreases|hint|after|step)\s+(.*)$`)
-var reAtCall = regexp.MustCompile(`^at\s+call\s+(\S+?)#(\d+)\s*:\s*(requires|hint|bind|ghost_after|ghost)\s+(.*)$`)
+var reAtCall = regexp.MustCompile(`^at\s+call\??\s+(\S+?)#(\d+)\s*:\s*(requires|hint|bind|ghost_after|ghost)\s+(.*)$`)
 
 func parseParams(s string) []QVar {
 	// "d []byte, p int" or "a, b int"; names only allowed ("s, sep")
@@ -582,8 +583,13 @@ func (ss *SpecSet) loadSpecFile(path string, prefixed bool, pkgDir string) error
 					}
 				}
 				if cs == nil {
-					cs = &CallSpec{Callee: m[1], K: k}
+					cs = &CallSpec{Callee: m[1], K: k, Optional: true}
 					cur.Calls = append(cur.Calls, cs)
+				}
+				if !strings.HasPrefix(strings.TrimSpace(d[2:]), "call?") {
+					cs.Optional = false
+				} else if m[3] == "requires" {
+					return fail(i, "at call? cannot carry a requires clause (a requirement on a call that may be absent would vanish silently)")
 				}
 				if m[3] == "ghost" || m[3] == "ghost_after" {
 					// ghost comp[idx] = expr ; comp = expr   (several separated by ';')
